@@ -123,3 +123,32 @@ Proof.
   - destruct hb; apply diagonal_update_support in Hd; destruct Hd as [-> Hl];
       pose proof (count_le_length sl1); lia.
 Qed.
+
+(* ---- closed form of a run of the growth rule ---- *)
+Definition need (n : nat) : nat := n + n / 2 + 1.
+
+Lemma cutoffs_last ns : forall c, nth (length ns) (cutoffs c ns) 0 = fold_left next_cutoff ns c.
+Proof. induction ns as [|n ns IH]; intros c; cbn [cutoffs length nth fold_left]; [reflexivity|apply IH]. Qed.
+
+(* after any run the cutoff is exactly max(initial, need(n_i) over the counts seen): it depends only
+   on the largest demand so far — not on the order of the counts — and is the least value the rule allows *)
+Theorem cutoffs_closed_form ns : forall c,
+  nth (length ns) (cutoffs c ns) 0 = Nat.max c (list_max (map need ns)).
+Proof.
+  intros c. rewrite cutoffs_last. revert c.
+  induction ns as [|n ns IH]; intros c; cbn [fold_left map list_max fold_right]; [lia|].
+  rewrite IH. unfold next_cutoff, need.
+  change (fold_right Nat.max 0 (map (fun n0 => n0 + n0 / 2 + 1) ns)) with (list_max (map (fun n0 => n0 + n0 / 2 + 1) ns)).
+  lia.
+Qed.
+
+(* a run whose counts never demand more than the current cutoff leaves it unchanged at every step *)
+Theorem cutoffs_stable ns : forall c, Forall (fun n => need n <= c) ns ->
+  forall i, i <= length ns -> nth i (cutoffs c ns) 0 = c.
+Proof.
+  induction ns as [|n ns IH]; intros c H i Hi; cbn [length] in Hi.
+  - assert (i = 0) by lia. subst. reflexivity.
+  - inversion H as [|? ? Hn Hr]; subst. destruct i as [|i]; [reflexivity|]. cbn [cutoffs nth].
+    assert (E : next_cutoff c n = c) by (unfold next_cutoff, need in *; lia).
+    rewrite E. apply IH; [exact Hr|lia].
+Qed.
